@@ -483,5 +483,6 @@ class Watch:
         return future_state(self.f)
 
 
-def watch(f):
+def watch(f, passthrough=False):
+    # (asyncio: the value a done-callback returns goes nowhere - nothing to pass on)
     return Watch(f)
